@@ -183,6 +183,11 @@ impl StateMachine<'_> {
         if new_section {
             writeln!(self.painter.writer, "--")?;
         }
+        if grep_line.code.is_empty() && grep_line.line_number.is_none() {
+            // There is neither a line number nor code to paint, but this is
+            // still a line of the grep output (e.g. an empty context line).
+            return writeln!(self.painter.writer);
+        }
         // Emit the actual grep hit line
         let code_style_sections = match (&grep_line.line_type, &grep_line.submatches) {
             (LineType::Match, Some(_)) => {
